@@ -42,16 +42,18 @@ def _resolve_span(s, fname):
     """Follow macro expansions outwards until the span lies in `fname` (the generated file)."""
     cur = s
     seen = 0
+    found = None
     while cur is not None and seen < 20:
         if os.path.basename(cur.get('file_name', '')) == os.path.basename(fname):
-            out = dict(cur)
-            out['is_primary'] = s.get('is_primary')
-            out['label'] = s.get('label')
-            return out
+            # keep walking: a span inside a macro DEFINED in the generated file (debug_checked_assume!) is less useful than the
+            # place the macro is used from -- the outermost span that lies in the generated file wins
+            found = dict(cur)
+            found['is_primary'] = s.get('is_primary')
+            found['label'] = s.get('label')
         exp = cur.get('expansion')
         cur = exp.get('span') if exp else None
         seen += 1
-    return None
+    return found
 
 
 class Diag:
